@@ -203,7 +203,7 @@ func cmdCheck(args []string) {
 	for _, e := range p.SpecErr {
 		limits = append(limits, "spec: "+e)
 	}
-	outs := dischargeAll(solver, allObls, 12)
+	outs := dischargeAll(solver, allObls, 8)
 	agg := aggregate(outs)
 
 	replayDir := filepath.Join(vd, "out", "replay")
@@ -268,6 +268,22 @@ func cmdCheck(args []string) {
 		}
 	}
 	sort.Strings(newBaseline)
+	// the slowest discharged obligations: anything near the time limit is a stability risk and is reported
+	type slow struct {
+		Name string  `json:"obligation"`
+		Secs float64 `json:"secs"`
+		By   string  `json:"backend"`
+	}
+	var slowest []slow
+	for _, a := range agg {
+		if a.Kind != "canary" && a.Status == "discharged" {
+			slowest = append(slowest, slow{a.Name, a.Secs, a.Backend})
+		}
+	}
+	sort.Slice(slowest, func(i, j int) bool { return slowest[i].Secs > slowest[j].Secs })
+	if len(slowest) > 8 {
+		slowest = slowest[:8]
+	}
 
 	// bounded stand-ins
 	var boundedReports []map[string]any
@@ -328,6 +344,7 @@ func cmdCheck(args []string) {
 		"known_findings_hit":      knownHit,
 		"bounded":                 boundedReports,
 		"samples":                 samples,
+		"slowest_obligations":     slowest,
 		"explanation":             ps.Explanation,
 		"evaluations":             nObl,
 		"distinct_nontrivial":     nDis,
